@@ -63,8 +63,8 @@ EXHAUSTIVE = {"quick": False, "thorough": False}
 # fsspec branch, which has no overwrite check, opens the file before dump() and is preceded by Path(path, "sw")
 # whose "w" check opens the file for writing. When fixes/C18-fsspec-target.patch is applied in /repo:
 # FINDING_CLASSES = {}  and  JUDGE = "judge_fsfixed", and the open: line in known_findings/C18.txt becomes fixed:.
-FINDING_CLASSES = {2: "fsspec-target-unprotected"}
-JUDGE = "judge_fixed"
+FINDING_CLASSES = {}  # fsspec-target-unprotected repaired in /repo e66d4c0
+JUDGE = "judge_fsfixed"
 if os.environ.get("VERIF_C18_FSFIXED"):  # to try a tree that has the patch without editing this file
     FINDING_CLASSES, JUDGE = {}, "judge_fsfixed"
 
